@@ -82,6 +82,7 @@ def run(ctx, col, tier):
     col.guard(keynorm, ctx, col)
     col.guard(axes, ctx, col)
     col.guard(raster, ctx, col)
+    col.guard(dispatch, ctx, col)
 
 
 def dtype_rule(ctx, col):
@@ -349,3 +350,21 @@ def raster(ctx, col):
                         col.bad("R-AXES", d.qualname, d.loc(lit), "per-axis quantities keep their axis",
                                 f"`{norm_src(lit)}` builds an (x, y, z) triple from components {[k for k, _ in ks]} of `{ks[0][1]}`: "
                                 f"an axis gets another axis' value, which differs as soon as the resolution is anisotropic in those axes", stmt="r:axis-mix", definite=True)
+
+
+def dispatch(ctx, col):
+    """read_imgs: the reader is chosen by the file extension, the requested dtype reaches it."""
+    repo = ctx.repo
+    d = repo.get_def(f"{IO}.read_imgs")
+    col.text_group("R-AXES", d.qualname, d, [
+        ("the default dtype is float32, a requested one is kept", ["kwargs.setdefault('dtype', np.float32)"], "rd:dtype"),
+        ("a missing file is an error", ["if not os.path.exists(fname): raise ValueError(_any)"], "rd:exists"),
+        ("the reader is chosen by the extension; options (dtype) are forwarded",
+         ["match os.path.splitext(fname)[-1]:\n    case '.tif' | '.tiff':\n        return TiffImageStack(fname, **kwargs)\n    case '.nrrd':\n        return NrrdImageStack(fname, **kwargs)\n"
+          "    case '.v3dpbd':\n        return V3dpbdImageStack(fname, **kwargs)\n    case '.v3draw':\n        return V3drawImageStack(fname, **kwargs)\n"
+          "    case '.npy':\n        return NDArrayImageStack(np.load(fname), **kwargs)"], "rd:match"),
+        ("anything else is rejected", ["raise ValueError('unsupported image stack')"], "rd:else")], fixed=("fname", "kwargs"))
+    t = repo.get_def(f"{IO}.TiffImageStack.__init__")
+    col.text_group("R-AXES", t.qualname, t, [
+        ("the file is opened and its first series decoded on every construction", ["with tifffile.TiffFile(fname, **kwargs) as f:\n    s = f.series[0]\n    imgs, axes = s.asarray(), s.axes"], "rd:tiff"),
+        ("the array goes to the base class with the requested dtype", ["super().__init__(imgs, dtype=dtype)"], "rd:base")], fixed=("fname", "kwargs", "dtype", "tifffile"))
